@@ -223,6 +223,25 @@ def run(ck):
             ck.check(pa.term == T.app("sum", T.exp(-E.term), (-1,)), "C02.R5", "partition=sum exp(-E)", prog.method("PurificationRBM", "partition").site(),
                      "partition is not the sum over the space of exp(-effective_energy)")
             ck.check(n.term == pa.term, "C02.R5", "normalization=partition", prog.method(DM, "normalization").site(), "normalization(space) is not rbm_am.partition(space)")
+    # ------------------------------------------------------------------ R6 history independence (two-call protocol)
+    from .history import check_history
+
+    def mk2(it):
+        s = make_state(it, DM)
+        return (s, tens(it, "v", ("B", "nv")), tens(it, "vp", ("B", "nv")), tens(it, "space", ("N", "nv")))
+
+    for mname, fcall in (
+        ("rho(v)", lambda it, c: call(it, c[0], "rho", c[1])),
+        ("rho(v, vp)", lambda it, c: call(it, c[0], "rho", c[1], c[2])),
+        ("rho(v, vp, expand=False)", lambda it, c: call(it, c[0], "rho", c[1], c[2], expand=VConst(False))),
+        ("pi(v, vp)", lambda it, c: call(it, c[0], "pi", c[1], c[2])),
+        ("probability", lambda it, c: call(it, c[0], "probability", c[1], VNum("float", T.sym("Z"), pos=True))),
+        ("normalization", lambda it, c: call(it, c[0], "normalization", c[3])),
+        ("importance_sampling_numerator", lambda it, c: call(it, c[0], "importance_sampling_numerator", c[1], c[2])),
+        ("importance_sampling_denominator", lambda it, c: call(it, c[0], "importance_sampling_denominator", c[1])),
+    ):
+        check_history(ck, "C02.R6", DM + "." + mname, rho_site, mk2, fcall)
+    ck.require_min("C02.R6", 8)
     ck.require_min("C02.R1", 6)
     ck.require_min("C02.R2", 8)
     ck.require_min("C02.R3", 8)
